@@ -21,6 +21,7 @@ def check(ctx, rep, tier):
     rep.describe("length-term", "in both scoring methods the text enters only through its "
                  "length, so the length term is a constant shift for a fixed text")
     _edges(ctx, rep)
+    _raw_extent_readers(ctx, rep)
     c02._span(ctx, rep, eng)
     _length_term(ctx, rep)
     report_undecided(rep, eng)
@@ -94,6 +95,34 @@ def _edges(ctx, rep):
     rep.notes.append("patterns that can end on a blank: {}; begin: {}; span trimmed at end: {}, "
                      "at start: {}".format(sorted({r.name for r in dirty_end}),
                                            sorted({r.name for r in dirty_start}), trims_end, trims_start))
+
+
+def _raw_extent_readers(ctx, rep):
+    """Who may read the raw extent of a regex match: only the one site that turns it
+    into the (trimmed) span.  Any other reader works on extents that include the blanks
+    a pattern can swallow."""
+    rep.describe("raw-extent-readers", "no function other than RegexMatch.__init__ reads "
+                 ".match.span()/.start()/.end(): lengths and positions are taken from the span "
+                 "fields, which exclude surrounding blanks")
+    n = 0
+    for mn, m in ctx.model.mods.items():
+        if not mn.startswith("ctparse") or "corpus" in mn:
+            continue
+        for q, f in m.funcs.items():
+            for c in ast.walk(f):
+                if isinstance(c, ast.Call) and isinstance(c.func, ast.Attribute) and \
+                        c.func.attr in ("span", "start", "end", "regs") and \
+                        isinstance(c.func.value, (ast.Name, ast.Attribute)) and \
+                        (norm(c.func.value).endswith(".match") or norm(c.func.value) in ("m", "match")):
+                    n += 1
+                    ok = q == "RegexMatch.__init__"
+                    if ok:
+                        continue
+                    rep.violated("raw-extent-readers", "{}::{}::{}".format(m.rel, q, norm(c)[:50]), m.where(c),
+                                 "reads the raw match extent (blanks swallowed by the pattern included) "
+                                 "instead of the span")
+    rep.ok("raw-extent-readers", "ctparse/types.py::RegexMatch.__init__ is the only reader", "ctparse/types.py",
+           "{} reads".format(n))
 
 
 def _length_term(ctx, rep):
